@@ -200,7 +200,6 @@ func runCase(c Case) *hx.Failure {
 		st.mu.Unlock()
 		st.seq.Add(1)
 	}
-	cascadeIdx := []int{}
 	for i, t := range c.Threads {
 		i, t := i, t
 		switch t.Via {
@@ -240,49 +239,35 @@ func runCase(c Case) *hx.Failure {
 				_, threadErr[i] = proc.AddEventAndWait(ev, nil)
 			}()
 		case viaCascade:
-			cascadeIdx = append(cascadeIdx, i)
+			// started by the starter sink; known as finished through probe.done only
 		}
 	}
 	if useCascade {
 		wg.Add(1)
 		go func() {
 			defer wg.Done()
-			defer func() {
-				for _, i := range cascadeIdx {
-					finish(i)
-				}
-			}()
+			defer st.seq.Add(1)
 			<-startGate
 			ev := engine.NewEvent("c12.start", []string{"c12", "start"}, map[interface{}]interface{}{})
 			proc.AddEventAndWait(ev, nil)
 		}()
 	}
 
-	// finished = every Go side wait has returned and (sink threads) the processor has
-	// worked off its queue and stopped its workers
-	allDone := make(chan struct{})
-	var waitsReturned atomic.Bool
-	go func() {
-		wg.Wait()
-		waitsReturned.Store(true)
-		if useSinks {
-			proc.Finish()
-		}
-		close(allDone)
-	}()
-
 	stopAux := make(chan struct{})
-	var auxWg sync.WaitGroup
+	stopKick := make(chan struct{})
+	var auxWg, kickWg sync.WaitGroup
 	if useSinks {
 		// The pool can miss a wake-up (a task pushed between a worker's empty pop and its
 		// wait is only picked up at the next signal; that is property C09, not C12): keep
-		// nudging it with events of an empty sink until everything has finished.
-		auxWg.Add(1)
+		// nudging it with events of an empty sink until every wait has returned.
+		kickWg.Add(1)
 		go func() {
-			defer auxWg.Done()
+			defer kickWg.Done()
 			pause := 200 * time.Microsecond
 			for {
 				select {
+				case <-stopKick:
+					return
 				case <-stopAux:
 					return
 				case <-time.After(pause):
@@ -310,6 +295,22 @@ func runCase(c Case) *hx.Failure {
 		}()
 	}
 
+	// finished = every Go side wait has returned and (sink threads) the processor has
+	// worked off its queue and stopped its workers
+	allDone := make(chan struct{})
+	var waitsReturned atomic.Bool
+	go func() {
+		wg.Wait()
+		waitsReturned.Store(true)
+		if useSinks {
+			// no event may be added while Finish runs (it would be left in the queue)
+			close(stopKick)
+			kickWg.Wait()
+			proc.Finish()
+		}
+		close(allDone)
+	}()
+
 	close(startGate)
 
 	// --- wait: finished, or no progress at all for the stuck bound -----------------
@@ -336,6 +337,7 @@ wait:
 	}
 	close(stopAux)
 	auxWg.Wait()
+	kickWg.Wait()
 
 	if stuck {
 		// threads (and possibly pool workers) stay blocked; nothing can be torn down
@@ -353,6 +355,13 @@ wait:
 	close(st.abort)
 
 	// --- verdict -------------------------------------------------------------------
+	errOut := 0
+	for _, e := range threadErr {
+		if e != nil {
+			errOut++
+		}
+	}
+	hx.E.Class("n.threads-ended-with-error", int64(errOut))
 	if f := st.verdict(c, src, guardFail, dupTid, gvs); f != nil {
 		return f
 	}
@@ -486,19 +495,19 @@ func (st *probeState) classifyStuck(c Case, bound time.Duration, extra string) *
 	desc := st.describe() + extra
 	quiet := true // every started, unfinished thread is waiting for a mutex or parked
 	for _, t := range st.thr {
-		if t.started && !t.done && !t.goDone && t.want == "" && t.parked == "" {
+		if t.started && !t.done && t.want == "" && t.parked == "" {
 			quiet = false
 		}
 	}
 	for i, t := range st.thr {
-		if t.done || t.goDone || t.want == "" {
+		if t.done || t.want == "" {
 			continue
 		}
 		o := st.occOf(t.want)
 		switch {
 		case o.depth > 0 && o.owner == i:
 			return hx.Failf("reentry-blocked", "thread %d is inside a block of mutex %s and has been waiting to enter a nested block of the same name for %v without any progress anywhere; state: %s", i, t.want, bound, desc)
-		case o.depth > 0 && (st.thr[o.owner].done || st.thr[o.owner].goDone):
+		case o.depth > 0 && st.thr[o.owner].done:
 			return hx.Failf("not-released", "thread %d waits for mutex %s which is still held by thread %d which has finished; state: %s", i, t.want, o.owner, desc)
 		case o.depth == 0 && quiet:
 			for key, sig := range c.Expect {
